@@ -8,9 +8,12 @@ import os
 import shutil
 
 from vlib import core
+from checks import c14_cover as cv
 
 THEOREMS = ["C14_whole_segment", "C14_rewrite_frame", "C14_roundtrip", "C14_history", "C14_history_returns", "C14_spec",
-            "C14_spec_locale", "C14_valid_decidable", "C14_valid_nonvacuous", "C14_old_refuted"]
+            "C14_spec_locale", "C14_valid_decidable", "C14_valid_nonvacuous", "C14_old_refuted",
+            "C14_first_match_frame", "C14_first_match_roundtrip", "C14_first_match_history", "C14_first_match_spec",
+            "C14_unique_is_first", "C14_first_match_example"]
 PROPS = "theories/Props/C14.v"
 REGISTRY = {
     "level": "proof",
@@ -224,6 +227,21 @@ def corpus_switch():
     return out
 
 
+def corpus_overlap():
+    """overlapping routes: a localized route followed by catch-alls (first match wins)"""
+    names = ["en", "fr", "de"]
+    root = ("S", [""] * 3)
+    about = ("S", ["about", "a-propos", "ueber"])
+    tab = [[root], [root, about], [root, ("P", "page")], [root, ("W", "any")]]
+    out = []
+    for a, b, path in ((0, 1, "/about"), (1, 0, "/fr/a-propos"), (1, 2, "/fr/a-propos/")):
+        out.append({"corpus": True, "structured": True, "names": names, "dflt": 0, "bsegs": [], "base": "/", "atab": tab,
+                    "inst": [about], "a": a, "b": b, "old": a, "path": path, "search": "", "hash": "",
+                    "intent": {"slashes": "trailing" if path.endswith("/") else "normal", "base": "root", "kinds": ["localized"],
+                               "overlap": "first-of-many"}})
+    return out
+
+
 def gen_locale_case(rng):
     names, _ = gen_names(rng)
     bsegs = rng.choice([[], [], [], ["foo"], ["app", "v2"], ["fr"], ["f"]])
@@ -328,17 +346,17 @@ def run_harness(exe, mode, lines, timeout=600):
     return res
 
 
-def stage_patched():
-    """development aid: /repo's routing.rs with /verif/fixes/C14-*.diff applied, compiled with feature `patched`"""
+def stage_patched(diffs):
+    """development aid (never used by a registered command): /repo's routing.rs with the given diff files applied
+    (VERIF_C14_PATCHED=<a.diff>[:<b.diff>]), compiled into the harness with feature `patched`"""
     d = os.path.join(core.CACHE, "work", "C14", "stage", "s3")
     shutil.rmtree(d, ignore_errors=True)
     os.makedirs(os.path.join(d, "leptos_i18n_router", "src"))
     shutil.copy(os.path.join(core.REPO, "leptos_i18n_router/src/routing.rs"), os.path.join(d, "leptos_i18n_router/src/routing.rs"))
-    for f in sorted(os.listdir(os.path.join(core.ROOT, "fixes"))):
-        if f.startswith("C14-") and f.endswith(".diff"):
-            rc, out, err = core.sh(["patch", "-p1", "-i", os.path.join(core.ROOT, "fixes", f)], cwd=d)
-            if rc != 0:
-                raise core.Infra("cannot stage %s: %s" % (f, out + err))
+    for f in [x for x in diffs.split(":") if x]:
+        rc, out, err = core.sh(["patch", "-p1", "-i", f], cwd=d)
+        if rc != 0:
+            raise core.Infra("cannot stage %s: %s" % (f, out + err))
     return os.path.join(core.cargo_build("h_router", features=["patched"], target_sub="target_c14p"), "h_router")
 
 
@@ -348,7 +366,7 @@ def size_of(c):
 
 def run(ctx):
     if os.environ.get("VERIF_C14_PATCHED"):
-        exe = stage_patched()
+        exe = stage_patched(os.environ["VERIF_C14_PATCHED"])
     else:
         exe = os.path.join(core.cargo_build("h_router"), "h_router")
     ok, problems = core.coq_audit(ctx, PROPS, THEOREMS)
@@ -357,11 +375,15 @@ def run(ctx):
         raise core.Infra("Runtime/RouterCheck.vo does not build: " + log[-600:])
     rng = ctx.rng
     quick = ctx.quick
-    n_switch, n_loc, n_free, n_hist = (2200, 900, 700, 500) if quick else (16000, 6000, 5000, 4000)
+    n_switch, n_loc, n_free, n_hist, n_struct = (900, 900, 600, 250, 1800) if quick else (9000, 6000, 5000, 2500, 14000)
 
     # ---------------------------------------------------------------- cases
     lcases = corpus_locale() + [gen_locale_case(rng) for _ in range(n_loc)]
-    ncases = corpus_switch() + [gen_switch(rng) for _ in range(n_switch)]
+    # structured stream: explicit coverage dimensions, every feasible pair of values reached (checks/c14_cover.py)
+    scases, _tbl, s_filled, s_unreached = cv.build(rng, n_struct)
+    for i, c in enumerate(corpus_overlap()):
+        scases.insert(i, c)
+    ncases = corpus_switch() + [c for c in scases if "ls" not in c] + [gen_switch(rng) for _ in range(n_switch)]
     fcases = [gen_free(rng) for _ in range(n_free)]
     hcases = []
     def esc(x):
@@ -383,6 +405,7 @@ def run(ctx):
         h = dict(c)
         h.update({"ls": ls, "by_path": rng.random() < 0.4})
         hcases.append(h)
+    hcases = [c for c in scases if "ls" in c] + hcases
     # the compiled enum: same generators with its fixed name list
     lines = ["E"]
     enum_names = None
@@ -546,6 +569,31 @@ def run(ctx):
     tcodes = core.coq_eval(ctx, "c14t", PRE, tcases, "check_t")
     mcodes = core.coq_eval(ctx, "c14m", PRE, [mcase_term(c) for c in tplan], "check_m")
 
+    # structured stream: cross-check the Python side's reading of the domain and of the overlap class with Coq, then the
+    # pairwise table over the cases Coq confirms to be inside the domain
+    sn = [(c, code) for c, code in zip(ncases, ncodes) if c.get("structured")]
+    sh = [(c, code) for c, code in zip(hcases, hcodes) if c.get("structured")]
+    klass = core.coq_eval(ctx, "c14k", PRE, [ncase_term(c) for c, _ in sn], "nclass")
+    rounds = core.coq_eval(ctx, "c14o", PRE, [ncase_term(c) for c, _ in sn], "nround")
+    oracle_mismatch = []
+    table = cv.Table()
+    tagged = 0
+    for (c, code), k in zip(sn, klass):
+        c.setdefault("tags", cv.tags(c))
+        if ["no-match", "unique", "first-of-many", "shadowed"][k] != c["tags"]["overlap"]:
+            oracle_mismatch.append({"what": "overlap class", "python": c["tags"]["overlap"], "coq_nclass": k, "case": c["path"]})
+    for c, code in sn + sh:
+        c.setdefault("tags", cv.tags(c))
+        if code == 1:
+            oracle_mismatch.append({"what": "python says inside the domain, Coq says outside", "path": c["path"], "names": c["names"]})
+        else:
+            table.add(c["tags"])
+            tagged += 1
+    pair_report = cv.report(table, s_unreached)
+    pair_report["cases_tagged"] = tagged
+    pair_report["cases_added_by_targeted_generation"] = s_filled
+    roundtrip_hyp = {"holds": sum(1 for r in rounds if r == 1), "fails": sum(1 for r in rounds if r == 0)}
+
     groups = [("get_locale_from_path", lcases, lcodes), ("get_new_path", ncases, ncodes), ("get_new_path (free-form)", fcases, fcodes),
               ("history", hcases, hcodes), ("match_nested", tplan, mcodes)]
     bad, disagree = [], []
@@ -566,8 +614,16 @@ def run(ctx):
             if k in c:
                 v[k] = c[k]
         if what in ("get_new_path", "history") and "inst" in c:
-            ls = c.get("ls", [c.get("b")])
-            v["expected"] = [url_path(c["names"], c["dflt"], c["bsegs"], l, c["inst"]) + suffix(c["search"], c["hash"]) for l in ls]
+            segs, cur, exp = cv.render(c["inst"], c["a"]), c["a"], []
+            for l in c.get("ls", [c.get("b")]):
+                segs = cv.expected_segs(len(c["names"]), c["atab"], cur, l, segs)
+                cur = l
+                exp.append(cv.url(c["names"], c["dflt"], c["bsegs"], l, segs) + suffix(c["search"], c["hash"]))
+            v["expected_first_match"] = exp
+            v["readings_of_source_path"] = len(cv.all_parses(len(c["names"]), c["a"], c["atab"], cv.render(c["inst"], c["a"])))
+        for k in ("tags", "forced"):
+            if k in c:
+                v[k] = {d: (sorted(x) if isinstance(x, set) else x) for d, x in c[k].items()}
         return v
 
     if bad:
@@ -576,10 +632,11 @@ def run(ctx):
         expl = {
             "get_locale_from_path": "spec_locale (Coq, Runtime/Router.v) is false: the locale returned is not the one whose name equals "
                                     "the first path segment after the base path (or a locale was returned for a path that has none)",
-            "get_new_path": "spec_C14 is false: the rewritten URL is not base + prefix of the new locale + the same reading with the "
-                            "static segments in the new locale's spelling + same query and fragment",
-            "history": "a URL in the history of switches differs from the URL of the same reading in that locale "
-                       "(in particular switching back does not restore the original URL)",
+            "get_new_path": "spec_first_match is false: the rewritten URL is not base + prefix of the new locale + the segments of the "
+                            "FIRST reading of the path (first matching route of the source locale's table) with its static segments "
+                            "in the new locale's spelling (a path no route matches is kept) + same query and fragment",
+            "history": "a URL in the history of switches differs from the one expected by first-match semantics "
+                       "(in particular switching back does not restore the original URL although the image reads the same way)",
             "match_nested": "match_nested reported a locale whose name is not the first segment of the path",
         }.get(what, "")
         byf = {}
@@ -590,12 +647,14 @@ def run(ctx):
             firsts.setdefault(w, view(w, cc))
         core.violation(ctx, "spec", {"failing_input": view(what, c), "explanation": expl, "count": len(bad), "by_function": byf,
                                      "smallest_per_function": firsts})
-    elif disagree or not ok:
+    elif disagree or not ok or oracle_mismatch:
         what, c = (disagree or [("", {})])[0]
         core.violation(ctx, "correspondence", {
             "broken": ("theorem/audit: " + "; ".join(problems)) if not ok else
-                      "correspondence Runtime/Router.v vs leptos_i18n_router/src/routing.rs (%s)" % what,
-            "first_disagreeing_input": view(what, c) if disagree else None, "disagreements": len(disagree)}, no_input=True)
+                      ("correspondence Runtime/Router.v vs leptos_i18n_router/src/routing.rs (%s)" % what) if disagree else
+                      "the generator's reference semantics (checks/c14_cover.py) disagrees with Runtime/Router.v",
+            "first_disagreeing_input": view(what, c) if disagree else None, "disagreements": len(disagree),
+            "oracle_mismatch": oracle_mismatch[:5]}, no_input=True)
 
     nontrivial = set()
     valid_n = 0
@@ -627,7 +686,10 @@ def run(ctx):
     total = sum(len(cs) for _, cs, _ in groups) + len(tcases)
     core.write_evidence(ctx, {
         "evaluations": total, "distinct_nontrivial": len(nontrivial),
-        "rule": "random (locale names incl. prefixes of each other and of words, default index, base path spelling, declared route "
+        "rule": "structured stream (checks/c14_cover.py): 12 explicit dimensions (names nested/flat, adversarial words, source/target "
+                "locale, base spelling, segment kind x position, overlap class, query, fragment, slash spelling, locale argument, "
+                "history length), random then targeted generation until every feasible pair of values is reached; overlapping "
+                "route tables and unmatched paths are inside the domain (first-match semantics). Plus: random (locale names incl. prefixes of each other and of words, default index, base path spelling, declared route "
                 "table with static/localized/param/optional/splat segments, a reading of one route, source and target locale, query, "
                 "fragment); corpus of the pre-fix defects first; free-form tables/paths for agreement only; histories of 1-6 switches "
                 "(70% end in the original locale; `locale` argument from the context or read from the path); locale reads and switches "
@@ -641,6 +703,9 @@ def run(ctx):
         "skipped_outside_valid": sum(1 for _, _, codes in groups for x in codes if x == 1),
         "input_distribution": hist, "declared_segment_kinds": kinds, "audit_problems": problems,
         "patched_build": bool(os.environ.get("VERIF_C14_PATCHED")),
+        "pairwise_coverage": pair_report,
+        "roundtrip_hypothesis_on_structured_switches": roundtrip_hyp,
+        "oracle_mismatches": len(oracle_mismatch),
     }, assumptions=[
         "routing.rs is compiled by include! into the harness crate (same source text as the library, `ssr` cfg declared)",
         "DynLocale (harness) implements leptos_i18n::Locale with a run-time name list; the path functions use only get_all, as_str, "
@@ -671,6 +736,6 @@ def replay(ctx, path):
         coq_inst(c2["inst"]), c2["a"], c2["b"], coq_optnat(c2["old"]), S(c2["path"]), S(c2["search"]), S(c2["hash"]), coq_res_str(out))
     code = core.coq_eval(ctx, "c14r", PRE, [term], "check_n")[0]
     print("implementation now: %r" % out)
-    print("expected          : %r" % c.get("expected"))
+    print("expected          : %r" % (c.get("expected_first_match") or c.get("expected")))
     print("check_n code      : %d (0 ok, 1 outside valid, 2 differs from model, 3 spec false)" % code)
     return 1 if code == 3 else 0
